@@ -132,6 +132,18 @@ def _cidcoding_sep(fn: ast.FunctionDef) -> bytes:
     raise P.Untranslatable("assignment to self.cidcoding not found")
 
 
+
+def _multibyte_guard(dev) -> bool:
+    """Does PDFTextDevice.render_string zero the word spacing for a multi-byte font
+    (`if font.is_multibyte(): wordspace = 0`) before the per-glyph `cid == 32 and wordspace` test?"""
+    fn = P.find_function(dev, "PDFTextDevice.render_string")
+    for n in ast.walk(fn):
+        if (isinstance(n, ast.If) and ast.unparse(n.test) == "font.is_multibyte()" and not n.orelse
+                and [ast.unparse(x) for x in n.body] == ["wordspace = 0"]):
+            return True
+    return False
+
+
 def generate(lean_dir: str):
     font = P.parse_file("pdfminer/pdffont.py")
     cmapdb = P.parse_file("pdfminer/cmapdb.py")
@@ -167,6 +179,9 @@ def generate(lean_dir: str):
                + "]\n\n")
     out.append("/-- separator of `self.cidcoding = f\"{registry.strip()}<sep>{ordering.strip()}\"` -/\n"
                "def CIDCODING_SEP : List UInt8 := [" + ", ".join(str(c) for c in _cidcoding_sep(init)) + "]\n\n")
+    dev = P.parse_file("pdfminer/pdfdevice.py")
+    out.append("/-- `if font.is_multibyte(): wordspace = 0` is present in `PDFTextDevice.render_string` -/\n"
+               f"def MULTIBYTE_ZEROES_WORDSPACE : Bool := {'true' if _multibyte_guard(dev) else 'false'}\n\n")
     out.append("end PdfVerif.Gen.CIDFont\n")
     path = os.path.join(lean_dir, "PdfVerif", "Gen", "CIDFont.lean")
     P.write_if_changed(path, "".join(out))
